@@ -2,6 +2,7 @@ import NeatviVerif.Drive.Common
 import NeatviVerif.Drive.C16
 import NeatviVerif.Drive.Ren
 import NeatviVerif.Drive.Lbuf
+import NeatviVerif.Drive.Regex
 /-!
 Line-protocol driver.  Reads case lines (input + the implementation's observables, as printed by
 the C harnesses) on stdin; for every line recomputes the model's observables and evaluates the
@@ -20,6 +21,10 @@ def judge (stream : String) (kv : KV) : Option Verdict :=
   | "ren17" => some (RenD.judge 17 kv)
   | "ren18" => some (RenD.judge 18 kv)
   | "shape" => some (RenD.judgeShape kv)
+  | "rx10" => some (RegexD.judgeRx 10 kv)
+  | "rx11" => some (RegexD.judgeRx 11 kv)
+  | "rx12" => some (RegexD.judgeRx 12 kv)
+  | "rset" => some (RegexD.judgeRset kv)
   | "lops04" => some (LbufD.judgeLops 4 kv)
   | "lops02" => some (LbufD.judgeLops 2 kv)
   | "rdwr01" => some (LbufD.judgeRdwr 1 kv)
